@@ -99,6 +99,10 @@ def oracle_cases(r):
         for x in json.loads(out.split("@@JSON@@")[1]):
             cases.append({"magic": magic, "bytes": x["payload"], "file": f"cpython-{v}:{x['name']}", "kind": "compiled-by-" + v})
             spec.append((v, magic, x))
+            if v == "3.8" and x["name"] in ("posonly", "closure", "kwonly"):
+                # the same 3.8 payloads under the pre-release magics that already have this layout (co_posonlyargcount came with 3410)
+                for m2 in (3410, 3411):
+                    cases.append({"magic": m2, "bytes": x["payload"], "file": f"cpython-3.8-payload-under-magic-{m2}:{x['name']}", "kind": "prerelease-magic-twin"})
     return cases, spec
 
 
